@@ -75,6 +75,13 @@ def run_units(case, rng, cls):
     D = [np.clip(a, 1e-2, 1e2) for a in D]
     u, _ = gen.face_arrays(rng, g, 'sign')
     u = [np.sign(a) * np.clip(np.abs(a), 1e-2, 1e1) for a in u]
+    intcoef = bool(case.get('intcoef'))
+    if intcoef:
+        # unit system A happens to have whole-number coefficients and time steps, stored in integer types; B holds the same
+        # quantities as floats in its own units
+        D, _ = gen.face_arrays(rng, g, 'int', positive=True)
+        D = [np.maximum(a, 1) for a in D]
+        u, _ = gen.face_arrays(rng, g, 'int')
     tset = case['tset']
     limname = str(rng.choice(LIMITERS))
     beta = np.abs(rng.normal(0, 1, g.dims))
@@ -89,8 +96,11 @@ def run_units(case, rng, cls):
 
     def build(m, gg, sp_, Ls, Ts, Ks):
         phi = pf.CellVariable(m, vals * Ks, gen.make_bc(pf, m, gg, sp_))
-        Df = gen.facevar(pf, m, [a * Ls ** 2 / Ts for a in D])
-        uf = gen.facevar(pf, m, [a * Ls / Ts for a in u])
+        if intcoef and Ls == 1.0 and Ts == 1.0:
+            Df, uf = gen.facevar(pf, m, D), gen.facevar(pf, m, u)              # the integer arrays as they are
+        else:
+            Df = gen.facevar(pf, m, [a * Ls ** 2 / Ts for a in D])
+            uf = gen.facevar(pf, m, [a * Ls / Ts for a in u])
         return phi, Df, uf
     phiA, DA, uA = build(mA, g, spec, 1.0, 1.0, 1.0)
     phiB, DB, uB = build(mB, gB, specB, L, T, K)
@@ -106,13 +116,18 @@ def run_units(case, rng, cls):
             if default_solver and dt_prev is not None and rng.random() < 0.7:
                 dt, alpha = dt_prev[0] * float(rng.choice([0.75, 1.25, 0.5, 2.0])), dt_prev[1]      # adaptive stepping: modest changes
             dt_prev = (dt, alpha)
+            dtA = dt
+            if intcoef:
+                dtA = [1, 2, 5, np.int64(3), np.int32(10)][int(rng.integers(0, 5))]
+                dt = float(dtA)
+                cov['integer_coefficient_steps'] = cov.get('integer_coefficient_steps', 0) + 1
             if step > 0:
                 # every step starts from exactly corresponding states: otherwise the (cond-amplified) rounding difference of the
                 # previous solves is fed through the nonlinear limiter and is mistaken for a unit dependence
                 phiB.value = np.asarray(phiA.value) * K
 
             def terms(phi, m, Df, uf, Ts, Ks):
-                t = [pf.transientTerm(phi, dt * Ts, alpha), -pf.diffusionTerm(Df)]
+                t = [pf.transientTerm(phi, dtA if (intcoef and Ts == 1.0) else dt * Ts, alpha), -pf.diffusionTerm(Df)]
                 if 'central' in tset:
                     t.append(pf.convectionTerm(uf))
                 if 'upwind' in tset:
@@ -336,6 +351,8 @@ def plan(tier, seed):
                 i += 1
                 cases.append({'cls': cls, 'kind': 'units', 'tset': tset, 'wide': rep % 2 == 0, 'default_solver': True, 'seed': [seed, 17, ci, i]})
                 i += 1
+                cases.append({'cls': cls, 'kind': 'units', 'tset': tset, 'intcoef': True, 'default_solver': rep % 2 == 1, 'seed': [seed, 17, ci, i]})
+                i += 1
         for rep in range(3 if tier == 'quick' else 60):
             cases.append({'cls': cls, 'kind': 'linearity', 'seed': [seed, 17, ci, i]})
             i += 1
@@ -358,7 +375,7 @@ def floors(agg, tier):
     for t in TSETS:
         if agg['cov'].get('tset:' + t, 0) < 20:
             out.append('tset:%s < 20' % t)
-    for k, need in (('unit_steps', 300), ('unit_direct', 100), ('small_amplitude', 20), ('pow2_scales', 30), ('wide_length_scale', 60), ('unit_default_path_steps', 150), ('length_scale_below_1e-7', 8), ('tvd_homogeneity', 40), ('tvd_homogeneity_below_1e-15', 5)):
+    for k, need in (('unit_steps', 300), ('unit_direct', 100), ('small_amplitude', 20), ('pow2_scales', 30), ('wide_length_scale', 60), ('unit_default_path_steps', 150), ('integer_coefficient_steps', 100), ('length_scale_below_1e-7', 8), ('tvd_homogeneity', 40), ('tvd_homogeneity_below_1e-15', 5)):
         if agg['cov'].get(k, 0) < need:
             out.append('%s < %d' % (k, need))
     return out
